@@ -136,14 +136,20 @@ def verify_depth_param(fn, pname, cycle_names):
     order = ([pname] if pname in names else []) + [n for v, n in zip(fn.params, names) if n != pname and
                                                    (fn.var_type(v) in ("int", "long", "unsigned int", "unsigned long", "short")
                                                     or fn.var_type(v) == "struct sexp_struct *") and n not in ("ctx", "self")]
-    first = None
+    fails = []
     for cand in order:
         ok, why = _verify_with_param(fn, cand, cycle_names)
-        if ok or (cand == pname) or isinstance(why, list):
+        if ok or cand == pname:
             verify_depth_param.pname_of[fn.name] = cand
             return ok, why
-        first = first or (ok, why)
-    return first if first else (False, "no parameter of %s carries a depth count" % fn.name)
+        fails.append((cand, why))
+    # no parameter carries the idiom: report the candidate that came closest (one that is compared and
+    # threaded but restarted somewhere, i.e. a per-call-site list) before a plain "no comparison"
+    for cand, why in fails:
+        if isinstance(why, list):
+            verify_depth_param.pname_of[fn.name] = cand
+            return False, why
+    return (False, fails[0][1]) if fails else (False, "no parameter of %s carries a depth count" % fn.name)
 
 
 verify_depth_param.pname_of = {}
